@@ -548,7 +548,9 @@ def fam_dense(tier: str) -> Family:
                 for tup in itertools.product(p, repeat=n):
                     out.append(["Dense", c, list(tup)])
     # complex element types (pairs)
-    for e, pool in (("f32", fbits("f32")[:4]), ("i32", [0, -1, 5])):
+    # float pools include nan / +-inf: the printer falls back to hexadecimal bit patterns for them inside the pair
+    fpool = lambda n: [fbits(n)[i] for i in (0, 1, 2, 4, 7, 8)]  # noqa: E731
+    for e, pool in (("f32", fpool("f32")), ("f64", fpool("f64")), ("i32", [0, -1, 5])):
         ct = ["ComplexType", elem_type_desc(e)]
         pairs = [[a, b] for a in pool for b in pool]
         for shape in ([], [1], [2]):
